@@ -89,3 +89,6 @@ func StoppedShards(nh *dragonboat.NodeHost) []uint64    { return nil }
 
 // YieldAtDB: every operation on a Pebble database handle becomes a scheduling point (engine only).
 func YieldAtDB(on bool) {}
+
+// TempFile: a readable file with the given content; returns its name.
+func TempFile(content string) string { return "" }
